@@ -1936,6 +1936,181 @@ impl<'a> CompositionGraphEncoder<'a> {
     }
 }
 
+#[cfg(feature = "verif")]
+impl CompositionGraph {
+    /// Returns a description of every violated internal invariant.
+    ///
+    /// This is a read-only self-check used by external runtime monitors; an
+    /// empty list means the bookkeeping of the graph is consistent.
+    pub fn verif_invariants(&self) -> Vec<String> {
+        let mut out = Vec::new();
+
+        for index in self.graph.node_indices() {
+            let node = &self.graph[index];
+            let i = index.index();
+
+            if let Some(package) = node.package {
+                match self.packages.get(package.index) {
+                    Some(entry)
+                        if entry.generation == package.generation && entry.package.is_some() => {}
+                    _ => out.push(format!("node {i} refers to a package id that is not live")),
+                }
+            }
+
+            if let NodeKind::Instantiation(satisfied) = &node.kind {
+                let mut incoming = Vec::new();
+                for e in self.graph.edges_directed(index, Direction::Incoming) {
+                    match e.weight() {
+                        Edge::Argument(a) => incoming.push(*a),
+                        _ => out.push(format!(
+                            "instantiation node {i} has a non-argument incoming edge"
+                        )),
+                    }
+                }
+                let mut sorted = incoming.clone();
+                sorted.sort_unstable();
+                sorted.dedup();
+                if sorted.len() != incoming.len() {
+                    out.push(format!(
+                        "instantiation node {i} has two argument edges for one argument index"
+                    ));
+                }
+                let mut sat: Vec<_> = satisfied.iter().copied().collect();
+                sat.sort_unstable();
+                if sat != sorted {
+                    out.push(format!(
+                        "instantiation node {i}: satisfied set {sat:?} != incoming argument edges {sorted:?}"
+                    ));
+                }
+                if node.package.is_none() {
+                    out.push(format!("instantiation node {i} has no package"));
+                }
+            }
+
+            let alias_sources: Vec<_> = self
+                .graph
+                .edges_directed(index, Direction::Incoming)
+                .filter(|e| matches!(e.weight(), Edge::Alias(_)))
+                .map(|e| e.source())
+                .collect();
+            match &node.kind {
+                NodeKind::Alias => {
+                    if alias_sources.len() != 1 {
+                        out.push(format!(
+                            "alias node {i} has {n} incoming alias edges",
+                            n = alias_sources.len()
+                        ));
+                    }
+                    for s in &alias_sources {
+                        if !matches!(self.graph[*s].item_kind, ItemKind::Instance(_)) {
+                            out.push(format!("alias node {i} has a non-instance source"));
+                        }
+                    }
+                }
+                _ => {
+                    if !alias_sources.is_empty() {
+                        out.push(format!("non-alias node {i} has an incoming alias edge"));
+                    }
+                }
+            }
+
+            match &node.kind {
+                NodeKind::Import(name) => {
+                    if self.imports.get(name) != Some(&index) {
+                        out.push(format!(
+                            "import node {i} (`{name}`) is not what the import map holds for its name"
+                        ));
+                    }
+                }
+                NodeKind::Definition => {
+                    if self.defined.get(&node.item_kind.ty()) != Some(&index) {
+                        out.push(format!(
+                            "definition node {i} is not what the defined-type map holds for its type"
+                        ));
+                    }
+                    if node.export.is_none() {
+                        out.push(format!("definition node {i} has no export name"));
+                    }
+                }
+                _ => {}
+            }
+
+            if let Some(name) = &node.export {
+                if self.exports.get(name) != Some(&index) {
+                    out.push(format!(
+                        "node {i} says it is exported as `{name}` but the export map disagrees"
+                    ));
+                }
+            }
+        }
+
+        for (name, index) in &self.exports {
+            match self.graph.node_weight(*index) {
+                None => out.push(format!(
+                    "export `{name}` refers to removed node {i}",
+                    i = index.index()
+                )),
+                // A node may be exported under several names; only the most
+                // recent one is recorded on the node itself.
+                Some(_) => {}
+            }
+        }
+
+        for (name, index) in &self.imports {
+            match self.graph.node_weight(*index) {
+                Some(node) if node.import_name() == Some(name.as_str()) => {}
+                _ => out.push(format!(
+                    "import `{name}` refers to node {i} which is not a live import of that name",
+                    i = index.index()
+                )),
+            }
+        }
+
+        for (ty, index) in &self.defined {
+            match self.graph.node_weight(*index) {
+                Some(node)
+                    if matches!(node.kind, NodeKind::Definition) && node.item_kind.ty() == *ty => {}
+                _ => out.push(format!(
+                    "defined-type map refers to node {i} which is not a live definition of that type",
+                    i = index.index()
+                )),
+            }
+        }
+
+        for (key, id) in &self.package_map {
+            match self.packages.get(id.index) {
+                Some(entry) if entry.generation == id.generation => match &entry.package {
+                    Some(p) if PackageKey::new(p) == *key => {}
+                    _ => out.push(format!("package map entry `{key}` refers to a wrong slot")),
+                },
+                _ => out.push(format!("package map entry `{key}` refers to a stale id")),
+            }
+        }
+
+        let live = self.packages.iter().filter(|p| p.package.is_some()).count();
+        if live != self.package_map.len() {
+            out.push(format!(
+                "{live} live package slots but {n} package map entries",
+                n = self.package_map.len()
+            ));
+        }
+
+        for (index, entry) in self.packages.iter().enumerate() {
+            let free = self.free_packages.iter().filter(|i| **i == index).count();
+            if entry.package.is_some() && free != 0 {
+                out.push(format!("live package slot {index} is on the free list"));
+            }
+            if entry.package.is_none() && free != 1 {
+                out.push(format!(
+                    "empty package slot {index} is on the free list {free} times"
+                ));
+            }
+        }
+
+        out
+    }
+}
+
 #[cfg(test)]
 mod test {
     use super::*;
